@@ -159,6 +159,10 @@ for Atomic<'a, ItemType, BUFFER_SIZE, MAX_STREAMS> {
         if let Some((slot, slot_id, len_before)) = self.channel.leak_slot_internal(|| false) {
             setter(slot).await;
             self.channel.publish_leaked_internal(slot_id);
+            // `len_before` was sampled when the slot was reserved, before the (arbitrarily long) suspension of the setter: the streams may have
+            // consumed events and parked meanwhile, so it is capped by what is in the channel now (only ever lowering it: stream #`n` is known
+            // to have been woken only if `n` other events are still ahead of this one)
+            let len_before = len_before.min((self.channel.available_elements_count() as u32).saturating_sub(1));
             if len_before < MAX_STREAMS as u32 {
                 self.streams_manager.wake_stream(len_before);
             } else if MAX_STREAMS > 0 {
